@@ -133,13 +133,15 @@ func (g *Gen) execSpec() *execSpec {
 	return e
 }
 
-func (e *execSpec) run() Observed {
+func (e *execSpec) run() Observed { return e.runWith(e.rec) }
+
+func (e *execSpec) runWith(rec *Recorder) Observed {
 	dest := copyDest(e.t, e.dest0)
 	var data any
 	if !e.validate {
 		data = e.in.Go(nil)
 	}
-	return Exec(e.schema, e.validate, data, dest, e.rec, e.opts...)
+	return Exec(e.schema, e.validate, data, dest, rec, e.opts...)
 }
 
 // NewHistoryCase: a probe execution is run (a) on freshly cleared pools, (b) after a random history
@@ -268,4 +270,69 @@ func valStr(v reflect.Value, depth int) string {
 		return fmt.Sprintf("%v", v.Interface())
 	}
 	return fmt.Sprintf("%v", v)
+}
+
+// ---- C08: schemas shared between goroutines --------------------------------------------------------
+
+// ExecSpec is one shared schema with several (data, destination, options) variants.
+type ExecSpec struct {
+	node     *Node
+	schemaP  z.ZogSchema // built for Parse
+	schemaV  z.ZogSchema // built for Validate (Preprocess functions differ in type)
+	variants []*execSpec
+}
+
+// SharedSpec builds one schema object pair and k variants of calls on it.  The user callbacks of
+// the shared schema are pure (they record nothing), as the property requires of shared schemas.
+func (g *Gen) SharedSpec(k int) *ExecSpec {
+	n := g.Schema()
+	s := &ExecSpec{node: n, schemaP: Build(nil, n, false), schemaV: Build(nil, n, true)}
+	for i := 0; i < k; i++ {
+		// half of the calls use a second destination type with the same fields in the opposite order
+		t := TypeOf(n)
+		if i%2 == 1 {
+			t = TypeOfAlt(n)
+		}
+		e := &execSpec{node: n, validate: g.R.P(40), t: t}
+		if e.validate {
+			e.schema = s.schemaV
+			e.dest0 = g.DestValue(n, t, false)
+		} else {
+			e.schema = s.schemaP
+			in := g.Input(n)
+			e.in = &in
+			e.dest0 = reflect.Zero(t)
+		}
+		if g.R.P(40) {
+			e.opts = append(e.opts, z.WithCtxValue("k1", fmt.Sprintf("v%d", g.R.Intn(100))))
+		}
+		if g.R.P(20) {
+			tag := fmt.Sprintf("F%d:", g.R.Intn(100))
+			e.opts = append(e.opts, z.WithIssueFormatter(func(i *z.ZogIssue, c z.Ctx) { i.SetMessage(tag + i.Code) }))
+		}
+		s.variants = append(s.variants, e)
+	}
+	return s
+}
+
+func (s *ExecSpec) Variants() int { return len(s.variants) }
+func (s *ExecSpec) Shape() string { return Shape(s.node) }
+
+// RunVariant executes one variant (own data, own destination) and renders the result; with collect
+// the issues are handed back through the Collect helpers afterwards.
+func (s *ExecSpec) RunVariant(v int, collect bool) string {
+	e := s.variants[v]
+	o := e.runWith(&Recorder{}) // per call: nothing is shared between goroutines but the schema
+	c := fullCanon(&o, s.node)
+	if a := aliased(&o); a != "" {
+		c += "\nALIASED: " + a
+	}
+	if collect {
+		if o.RawMap != nil {
+			z.Issues.CollectMap(o.RawMap)
+		} else if o.RawList != nil {
+			z.Issues.CollectList(o.RawList)
+		}
+	}
+	return c
 }
